@@ -73,7 +73,11 @@ def units():
         add('POMDP::Utils<%s>' % k, ['POMDP/Utils.hpp'] + inc,
             'void use(const %s & m) { %sPOMDP::Belief b, o; %sPOMDP::updateBelief(m, b, 0, 0); %sPOMDP::updateBeliefUnnormalized(m, b, 0, 0); '
             '%sPOMDP::updateBeliefPartial(m, b, 0); %sPOMDP::beliefExpectedReward(m, b, 0); %sPOMDP::makeSOSA(m); }' % (t, A, A, A, A, A, A))
-        add('getObservationProbability(b,o,a)<%s>' % k, inc, 'double use(const %s & m) { %sPOMDP::Belief b; return m.getObservationProbability(b, 0, 0); }' % (t, A)) if 'Sparse' in t.split('<')[0] else None
+        if 'Sparse' in t.split('<')[0]:
+            # declared and documented, so a program using it must also LINK (a template member declared but never defined compiles)
+            U.append({'id': 'link:getObservationProbability(b,o,a)<%s>' % k, 'link': True,
+                      'src': ''.join('#include <AIToolbox/%s>\n' % i for i in inc) +
+                             'int main() { %s * m = nullptr; %sPOMDP::Belief b; return m ? (int)m->getObservationProbability(b, 0, 0) : 0; }\n' % (t, A)})
     # --- factored / bandit class templates
     add('FilterMap<int,Trie>', ['Factored/Utils/FilterMap.hpp', 'Factored/Utils/Trie.hpp'], 'template class %sFactored::FilterMap<int, %sFactored::Trie>;' % (A, A))
     # FilterMap::filter(PartialFactors) is documented as available only if the TrieType supports it: with the default FasterTrie use the other members
